@@ -47,7 +47,8 @@ func init() {
 	regExplore("C01", txWorlds(), one(monitors.Conservation{}))
 	regExplore("C02", txWorlds(), one(monitors.NonNegative{}))
 	regExplore("C03", txWorlds(), one(monitors.FailedTxOnlyFee{}))
-	regExplore("C05", txWorlds(), one(monitors.Authorization{}))
+	// C05 keeps the history-dependent items of the pay world (replays, forged bodies carrying an earlier signature)
+	regExplore("C05", append([]WorldRun{wrPayReplay}, txWorlds()[1:]...), one(monitors.Authorization{}))
 	regExplore("C22", []WorldRun{wrCoin, wrPool}, one(monitors.Registry{}))
 	regExplore("C27", txWorlds(), one(monitors.Fees{}))
 	regExplore("C04", []WorldRun{wrPayReplay}, one(monitors.OnceInOrder{}))
